@@ -1007,7 +1007,8 @@ class AnnotationCollection(AbstractFeatureIntervalCollection):
         Yields:
             :class:`~biocantor.io.gff3.rows.GFFRow`
         """
-        for item in self.iter_children():
+        # variants cannot be represented in GFF3
+        for item in self.iter_non_variant_children():
             yield from item.to_gff(
                 chromosome_relative_coordinates=chromosome_relative_coordinates,
                 raise_on_reserved_attributes=raise_on_reserved_attributes,
